@@ -7,6 +7,7 @@ the clients at statement granularity over the SAME globals. RefHeap is stepped i
 in which the operations completed; after every operation the result (value, or identity class for
 containers) and the whole pool (contents AND alias structure) must agree.
 """
+import collections
 import copy
 import datetime
 import re
@@ -89,6 +90,12 @@ def gen(seed, tier, extra=None):
                     pool[n][1].append([rng.choice(KEYS), ['ref', other]])
     for i in range(rng.randint(0, 2)):
         pool[f'al{i}'] = ['alias', rng.choice(names_a + names_o)]
+    # host-supplied containers need not be plain list / dict instances: the embedding application may hand over dict
+    # and list subclasses (collections.defaultdict, OrderedDict, a list subclass) — same contracts
+    rf = stream(seed, 'flavour')
+    for n in names_a + names_o:
+        if rf.random() < 0.15:
+            pool[n].append(rf.choice(['defaultdict', 'ordered', 'counterlike']) if pool[n][0] == 'D' else 'listsub')
     plan = {'seed': seed, 'pool': pool, 'clients': [], 'policy': rng.choice(['random', 'random', 'lowest'])}
     arrays = names_a + [k for k, v in pool.items() if isinstance(v, list) and v[0] == 'alias' and v[1] in names_a]
     objects = names_o + [k for k, v in pool.items() if isinstance(v, list) and v[0] == 'alias' and v[1] in names_o]
@@ -212,16 +219,24 @@ def gen_op(rng, op_id, arrays, objects, strings, n_tmp):
 # --------------------------------------------------------------------------------------------
 # building the two worlds
 # --------------------------------------------------------------------------------------------
+class HostList(list):
+    """A list subclass, as an embedding application may supply one."""
+    __slots__ = ()
+
+
 def build_pool(spec, real):
     """Construct the pool twice by the same recipe -> the bijection real<->ref holds by construction."""
     objs = {}
     order = [k for k, v in spec.items() if not (isinstance(v, list) and v and v[0] == 'alias')]
     for name in order:
         v = spec[name]
+        flavour = v[2] if isinstance(v, list) and len(v) > 2 and real else None
         if isinstance(v, list) and v[0] == 'L':
-            objs[name] = []
+            objs[name] = HostList() if flavour == 'listsub' else []
         elif isinstance(v, list) and v[0] == 'D':
-            objs[name] = {}
+            objs[name] = collections.defaultdict(list) if flavour == 'defaultdict' else \
+                collections.OrderedDict() if flavour == 'ordered' else \
+                collections.defaultdict(lambda: 0.0) if flavour == 'counterlike' else {}
         else:
             objs[name] = v
 
@@ -273,7 +288,7 @@ def iso(real, ref, r2f, f2r, path='$', depth=0):
     if isinstance(ref, Opaque):
         return None if not isinstance(real, (list, dict, str, bool, int, float, type(None))) else path + ': opaque expected'
     if isinstance(ref, list) or isinstance(ref, dict):
-        if type(real) is not type(ref):
+        if not isinstance(real, type(ref)):
             return f'{path}: {type(real).__name__} vs {type(ref).__name__}'
         if id(real) in r2f or id(ref) in f2r:
             if r2f.get(id(real)) != id(ref) or f2r.get(id(ref)) != id(real):
@@ -396,7 +411,7 @@ def run(plan, stats):
                     bad = check_escape_url(fn, ref_args[0], real_result, stats)
             elif isinstance(ref_result, (list, dict)):
                 known = {id(v): k for k, v in ref_globals.items() if isinstance(v, (list, dict))}
-                if type(real_result) is not type(ref_result):
+                if not isinstance(real_result, type(ref_result)):
                     bad = f'result {type(real_result).__name__}, expected {type(ref_result).__name__}'
                 else:
                     r2f, f2r = {}, {}
